@@ -198,13 +198,16 @@ def economy(draw, zones=(1, 3), horizon=(3, 5), want_cross=None, gold=True, fede
             a = draw(st.sampled_from(all_c))
             b = draw(st.sampled_from([x for x in all_c if x != a]))
             if draw(st.booleans()):
-                amount = draw(st.sampled_from([dec2(draw(st.integers(1, 2000))), '0.05*LAG_F', '0.1000*AfterTax']))
+                amount = draw(st.sampled_from([dec2(draw(st.integers(1, 2000))), '0.05*LAG_F', '0.1000*AfterTax', 'EXO']))
+                amount_path = draw(path(K, 1, 3000)) if amount == 'EXO' else None
                 name = 'GIFT%d' % len(spec['links'])
                 earlier = [l for l in spec['links'] if l['kind'] == 'gift' and l['src'] == list(a)]
                 if earlier and draw(st.booleans()):
                     # the same amount variable paid once more (to another or the same recipient): repeated flows accumulate
-                    name, amount = earlier[0]['name'], earlier[0]['amount']
+                    name, amount, amount_path = earlier[0]['name'], earlier[0]['amount'], earlier[0].get('amount_path')
+                # amount 'EXO': the variable is declared with the usual placeholder and its values come as an exogenous path
                 spec['links'].append({'kind': 'gift', 'src': list(a), 'dst': list(b), 'amount': amount, 'name': name,
+                                      'amount_path': amount_path,
                                       'inc_src': draw(st.booleans()), 'inc_dst': draw(st.booleans())})
             else:
                 # country a imports from the business of country b
@@ -234,6 +237,12 @@ def economy(draw, zones=(1, 3), horizon=(3, 5), want_cross=None, gold=True, fede
         for z in spec['zones']:
             if draw(gen.chance(3, 4)):
                 spec['xr'][z['currency']] = draw(path(K, 50, 300))
+    # a government transfer booked directly with Sector.AddCashFlow() on both sides, at the moment both sectors exist
+    # (i.e. in the middle of the declarations - other sectors, with their own income exclusions, are created afterwards)
+    for z in spec['zones']:
+        for c in z['countries']:
+            if c['hh'] and z['countries'][0]['gov'] is not None and draw(gen.chance(1, 4)):
+                c['transfer'] = {'amount': dec2(draw(st.integers(1, 3000))), 'income': draw(st.booleans())}
     # declaration order of the sectors: canonical, or a dependency-respecting shuffle driven by these keys
     spec['order_keys'] = draw(st.lists(st.integers(0, 11), min_size=6, max_size=14)) if draw(st.booleans()) else None
     # income exclusions registered by the user after the sectors exist ("declare everything, then customise"): the
@@ -512,6 +521,15 @@ def _construct(spec, out, mod, zsel, nm, dsc, make_external, order_seed, hooks, 
                                        FixedMarginBusinessMultiOutput(cobj, bcode, dsc('bus'),
                                                                       profit_margin=float(b['margin']),
                                                                       labour_input_name=labour))))
+            if c.get('transfer') is not None:
+                def do_transfer(zi=zi, ci=ci, c=c):
+                    gov_, hh_ = S[(zi, 0, 'gov')], S[(zi, ci, 'hh0')]
+                    name_ = 'TRANSFER%d' % ci
+                    gov_.AddVariable(name_, dsc('transfer to households'), c['transfer']['amount'])
+                    gov_.AddCashFlow('-' + name_, is_income=False)
+                    hh_.AddCashFlow('+' + gov_.GetVariableName(name_), is_income=c['transfer']['income'])
+                    return None
+                decls.append(((zi, ci, 'transfer'), [(zi, 0, 'gov'), (zi, ci, 'hh0')], do_transfer))
             if c['tax'] is not None:
                 t = c['tax']
                 decls.append(((zi, ci, 'tax'), [],
@@ -558,7 +576,9 @@ def _construct(spec, out, mod, zsel, nm, dsc, make_external, order_seed, hooks, 
             pick = ready[keys[step % len(keys)] % len(ready)]
             step += 1
         pending.remove(pick)
-        S[pick[0]] = pick[2]()
+        made_ = pick[2]()
+        if made_ is not None:
+            S[pick[0]] = made_
         done.add(pick[0])
         seq.append(pick[0])
         for pr in spec.get('probes', []):
@@ -648,7 +668,11 @@ def _construct(spec, out, mod, zsel, nm, dsc, make_external, order_seed, hooks, 
             src = S[(a[0], a[1], 'hh0')]
             dst = S[(b[0], b[1], 'hh0')]
             if l['name'] not in src.EquationBlock:
-                src.AddVariable(l['name'], dsc('gift'), l['amount'])
+                if l['amount'] == 'EXO':
+                    src.AddVariable(l['name'], dsc('gift'), '0.0')
+                    src.SetExogenous(l['name'], '[' + ', '.join(l['amount_path']) + ']')
+                else:
+                    src.AddVariable(l['name'], dsc('gift'), l['amount'])
             mod.RegisterCashFlow(src, dst, l['name'], is_income_source=l['inc_src'], is_income_dest=l['inc_dst'])
         else:
             market = S[(a[0], a[1], 'goods')]
